@@ -437,6 +437,9 @@ func Step(m MState, in Input, writeFails bool) (MState, Output) {
 
 	case OpSnapshot:
 		out.Cls = m.Snapshot()
+		if !judgeHashIndex {
+			out.Cls = coreView(out.Cls)
+		}
 	}
 	return m, out
 }
